@@ -1,6 +1,1148 @@
+(* Proofs for C06 over MR/MRModel.v.  Layout: rounding arithmetic; interval geometry on plain lists (GeoL);
+   geometry of the model (Geo: regions / items / bump window) through oversize, the three page-array placements,
+   new page, allocate; structure of the slot arrays (Chain / Str) through every operation; main theorems. *)
 From Coq Require Import ZArith List Bool Lia.
 Require Import Verif.Gen.Gen_memory_resource Verif.MR.MRModel.
 Import ListNotations.
 Local Open Scope Z_scope.
-Lemma mr_cap_pos : 1 <= PAGE_ARRAY_CAPACITY.
-Proof. vm_compute. discriminate. Qed.
+
+Lemma land_neg_pow2 : forall k x, 0 <= k < 64 -> 0 <= x < 2 ^ 64 ->
+  Z.land x ((- 2 ^ k) mod 2 ^ 64) = 2 ^ k * (x / 2 ^ k).
+Proof.
+  intros k x Hk Hx.
+  assert (E : - 2 ^ k = Z.lnot (Z.ones k)).
+  { rewrite Z.ones_equiv. unfold Z.lnot. lia. }
+  rewrite E.
+  rewrite <- (Z.land_ones _ 64) by lia.
+  rewrite (Z.land_comm (Z.lnot (Z.ones k))).
+  rewrite Z.land_assoc.
+  rewrite (Z.land_ones x 64) by lia.
+  rewrite (Z.mod_small x) by lia.
+  rewrite <- Z.ldiff_land.
+  rewrite Z.ldiff_ones_r by lia.
+  rewrite Z.shiftr_div_pow2 by lia.
+  rewrite Z.shiftl_mul_pow2 by lia. lia.
+Qed.
+
+Definition pow2 (a : Z) : Prop := exists k, 0 <= k <= 32 /\ a = 2 ^ k.
+
+Lemma pow2_pos : forall a, pow2 a -> 1 <= a <= 2 ^ 32.
+Proof.
+  intros a (k & Hk & ->). split.
+  - assert (0 < 2 ^ k) by (apply Z.pow_pos_nonneg; lia). lia.
+  - apply Z.pow_le_mono_r; lia.
+Qed.
+
+(* the three rounding expressions of the source are instances of this one *)
+Definition rup (x a : Z) : Z := Z.land (x + a - 1) ((- a) mod 2 ^ 64).
+
+Lemma rup_spec : forall x a, pow2 a -> 0 <= x <= 2 ^ 63 ->
+  rup x a = a * ((x + a - 1) / a).
+Proof.
+  intros x a Ha Hx. pose proof (pow2_pos a Ha) as Hp.
+  destruct Ha as (k & Hk & ->). unfold rup.
+  apply land_neg_pow2; lia.
+Qed.
+
+Lemma rup_bounds : forall x a, pow2 a -> 0 <= x <= 2 ^ 63 ->
+  x <= rup x a < x + a /\ rup x a mod a = 0.
+Proof.
+  intros x a Ha Hx. rewrite rup_spec by assumption.
+  pose proof (pow2_pos a Ha) as Hp.
+  pose proof (Z.div_mod (x + a - 1) a ltac:(lia)).
+  pose proof (Z.mod_pos_bound (x + a - 1) a ltac:(lia)).
+  split. lia. rewrite Z.mul_comm. apply Z.mod_mul. lia.
+Qed.
+
+Lemma rup_le_multiple : forall x a m, pow2 a -> 0 <= x <= 2 ^ 63 -> x <= m -> m mod a = 0 -> rup x a <= m.
+Proof.
+  intros x a m Ha Hx Hm Hd. rewrite rup_spec by assumption.
+  pose proof (pow2_pos a Ha) as Hp.
+  apply Z.mod_divide in Hd; try lia. destruct Hd as (c & ->).
+  assert ((x + a - 1) / a < c + 1). { apply Z.div_lt_upper_bound; lia. }
+  nia.
+Qed.
+
+Lemma align_up_rup : forall x a, align_up x a = rup x a.
+Proof. reflexivity. Qed.
+Lemma new_tail_round_rup : forall b, new_tail_round b = rup b 8.
+Proof. reflexivity. Qed.
+Lemma over_round_rup : forall b a, over_round b a = rup b a.
+Proof. reflexivity. Qed.
+(* ---------------------------------------------------------------- intervals *)
+Definition iv := (Z * Z)%type.
+Definition disj (x y : iv) : Prop :=
+  snd x <= 0 \/ snd y <= 0 \/ fst x + snd x <= fst y \/ fst y + snd y <= fst x.
+Definition inside (x r : iv) : Prop :=
+  snd x <= 0 \/ (fst r <= fst x /\ fst x + snd x <= fst r + snd r).
+
+Lemma disj_sym : forall x y, disj x y -> disj y x.
+Proof. unfold disj; intros; lia. Qed.
+Lemma disj_inside_l : forall x w i, inside x w -> disj i w -> disj i x.
+Proof. unfold disj, inside; intros; lia. Qed.
+Lemma inside_trans : forall x y z, inside x y -> inside y z -> inside x z.
+Proof. unfold inside; intros; lia. Qed.
+Lemma inside_disj : forall x r y r', inside x r -> inside y r' -> disj r r' -> disj x y.
+Proof. unfold disj, inside; intros; lia. Qed.
+
+Fixpoint PW (l : list iv) : Prop :=
+  match l with [] => True | x :: r => Forall (disj x) r /\ PW r end.
+
+Lemma PW_insert : forall l1 l2 x, PW (l1 ++ l2) -> Forall (disj x) (l1 ++ l2) -> PW (l1 ++ x :: l2).
+Proof.
+  induction l1 as [|y l1 IH]; simpl; intros l2 x H F.
+  - split; assumption.
+  - destruct H as [Hy Hr]. inversion F as [|? ? Fy Fr]; subst. split.
+    + apply Forall_app in Hy. destruct Hy as [H1 H2]. apply Forall_app. split; [assumption|].
+      constructor; [apply disj_sym; assumption | assumption].
+    + apply IH; assumption.
+Qed.
+
+Lemma Forall_insert : forall {A} (Q : A -> Prop) l1 l2 x, Forall Q (l1 ++ l2) -> Q x -> Forall Q (l1 ++ x :: l2).
+Proof.
+  intros A Q l1 l2 x H Hx. apply Forall_app in H. destruct H. apply Forall_app. split; [assumption|].
+  constructor; assumption.
+Qed.
+
+Lemma In_insert : forall {A} (l1 l2 : list A) x y, In y (l1 ++ l2) -> In y (l1 ++ x :: l2).
+Proof. intros. rewrite in_app_iff in *. simpl. tauto. Qed.
+
+(* ---------------------------------------------------------------- geometry invariant on plain lists *)
+Definition reg_ok (r : iv) : Prop := 0 < fst r /\ 0 <= snd r /\ fst r + snd r <= 2 ^ 62.
+Definition owned (R : list iv) (i : iv) : Prop := snd i <= 0 \/ exists r, In r R /\ inside i r.
+
+Record GeoL (R I : list iv) (w : iv) : Prop := {
+  g_regs : PW R;
+  g_regok : Forall reg_ok R;
+  g_items : PW I;
+  g_in : Forall (owned R) I;
+  g_win : Forall (fun i => disj i w) I;
+  g_winin : owned R w
+}.
+
+Definition fresh (R : list iv) (r : iv) : Prop := reg_ok r /\ Forall (disj r) R.
+
+Lemma owned_insert : forall R1 R2 r i, owned (R1 ++ R2) i -> owned (R1 ++ r :: R2) i.
+Proof.
+  intros R1 R2 r i [H|(q & Hq & Hi)]; [left; assumption|right].
+  exists q. split; [apply In_insert; assumption|assumption].
+Qed.
+
+Lemma owned_inside : forall R x w, owned R w -> inside x w -> owned R x.
+Proof.
+  intros R x w [H|(q & Hq & Hi)] Hx.
+  - left. unfold inside in Hx. lia.
+  - destruct (Z_le_gt_dec (snd x) 0); [left; assumption|right].
+    exists q. split; [assumption|eapply inside_trans; eauto].
+Qed.
+
+Lemma geo_add_region : forall R1 R2 I w r, GeoL (R1 ++ R2) I w -> fresh (R1 ++ R2) r -> GeoL (R1 ++ r :: R2) I w.
+Proof.
+  intros R1 R2 I w r [] [Hok Hf]. constructor; auto.
+  - apply PW_insert; assumption.
+  - apply Forall_insert; assumption.
+  - eapply Forall_impl; [|exact g_in0]. intros i. apply owned_insert.
+  - apply owned_insert; assumption.
+Qed.
+
+(* anything inside a fresh region is disjoint from every existing item and from the window *)
+Lemma fresh_disj_owned : forall R r x i, fresh R r -> inside x r -> owned R i -> disj x i.
+Proof.
+  intros R r x i [Hok Hf] Hx [Hz|(q & Hq & Hi)]; [unfold disj; lia|].
+  rewrite Forall_forall in Hf. specialize (Hf q Hq).
+  eapply inside_disj; eauto.
+Qed.
+
+Lemma fresh_disj_items : forall R I w r x, GeoL R I w -> fresh R r -> inside x r -> Forall (disj x) I.
+Proof.
+  intros R I w r x [] Hf Hx.
+  eapply Forall_impl; [|exact g_in0]. intros i Hi. eapply fresh_disj_owned; eauto.
+Qed.
+
+Lemma fresh_disj_win : forall R I w r x, GeoL R I w -> fresh R r -> inside x r -> disj x w.
+Proof. intros R I w r x [] Hf Hx. eapply fresh_disj_owned; eauto. Qed.
+
+(* add an item x that is owned and disjoint from all items and from the window *)
+Lemma geo_add_item : forall R I1 I2 w x, GeoL R (I1 ++ I2) w -> owned R x ->
+  Forall (disj x) (I1 ++ I2) -> disj x w -> GeoL R (I1 ++ x :: I2) w.
+Proof.
+  intros R I1 I2 w x [] Hx Hd Hw. constructor; auto.
+  - apply PW_insert; assumption.
+  - apply Forall_insert; assumption.
+  - apply Forall_insert; assumption.
+Qed.
+
+Lemma geo_set_window : forall R I w w', GeoL R I w -> Forall (fun i => disj i w') I -> owned R w' -> GeoL R I w'.
+Proof. intros R I w w' [] H1 H2. constructor; auto. Qed.
+
+Lemma geo_shrink_window : forall R I w w', GeoL R I w -> inside w' w -> GeoL R I w'.
+Proof.
+  intros R I w w' G Hi. pose proof G as []. eapply geo_set_window; eauto.
+  - eapply Forall_impl; [|exact g_win0]. intros i Hd. eapply disj_inside_l; eauto.
+  - eapply owned_inside; eauto.
+Qed.
+
+(* carve x from the window, keep a sub-window w' disjoint from x *)
+Lemma geo_carve : forall R I1 I2 w x w', GeoL R (I1 ++ I2) w -> inside x w -> inside w' w -> disj x w' ->
+  GeoL R (I1 ++ x :: I2) w'.
+Proof.
+  intros R I1 I2 w x w' G Hx Hw Hd.
+  pose proof (geo_shrink_window _ _ _ _ G Hw) as G'.
+  apply geo_add_item; auto.
+  - eapply owned_inside; [exact (g_winin _ _ _ G)|assumption].
+  - pose proof G as []. eapply Forall_impl; [|exact g_win0]. intros i Hi. apply disj_sym. eapply disj_inside_l; eauto.
+Qed.
+Lemma geo_drop_head : forall R x I w, GeoL R (x :: I) w -> GeoL R I w.
+Proof.
+  intros R x I w []. simpl in *. destruct g_items0.
+  inversion g_in0; subst. inversion g_win0; subst. constructor; auto.
+Qed.
+
+Lemma geo_move_item : forall R x I1 I2 w, GeoL R (x :: I1 ++ I2) w -> GeoL R (I1 ++ x :: I2) w.
+Proof.
+  intros R x I1 I2 w G. pose proof (geo_drop_head _ _ _ _ G) as G'.
+  destruct G as []. simpl in *. destruct g_items0. inversion g_in0; subst. inversion g_win0; subst.
+  apply geo_add_item; auto.
+Qed.
+
+(* a fresh region rg is obtained; item x and the new window w' lie in it *)
+Lemma geo_fresh_win : forall R1 R2 I1 I2 w rg x w', GeoL (R1 ++ R2) (I1 ++ I2) w -> fresh (R1 ++ R2) rg ->
+  inside x rg -> inside w' rg -> disj x w' -> GeoL (R1 ++ rg :: R2) (I1 ++ x :: I2) w'.
+Proof.
+  intros R1 R2 I1 I2 w rg x w' G Hf Hx Hw Hd.
+  pose proof (geo_add_region _ _ _ _ _ G Hf) as G1.
+  assert (Hin : In rg (R1 ++ rg :: R2)) by (apply in_elt).
+  assert (G2 : GeoL (R1 ++ rg :: R2) (I1 ++ I2) w').
+  { eapply geo_set_window; [exact G1| |].
+    - pose proof (fresh_disj_items _ _ _ _ _ G Hf Hw) as F. eapply Forall_impl; [|exact F]. intros; apply disj_sym; assumption.
+    - destruct (Z_le_gt_dec (snd w') 0); [left; assumption|right]. exists rg. split; assumption. }
+  apply geo_add_item; [exact G2| | |exact Hd].
+  - destruct (Z_le_gt_dec (snd x) 0); [left; assumption|right]. exists rg. split; assumption.
+  - exact (fresh_disj_items _ _ _ _ _ G Hf Hx).
+Qed.
+
+(* same, the window stays *)
+Lemma geo_fresh_keep : forall R1 R2 I1 I2 w rg x, GeoL (R1 ++ R2) (I1 ++ I2) w -> fresh (R1 ++ R2) rg ->
+  inside x rg -> GeoL (R1 ++ rg :: R2) (I1 ++ x :: I2) w.
+Proof.
+  intros R1 R2 I1 I2 w rg x G Hf Hx.
+  pose proof (geo_add_region _ _ _ _ _ G Hf) as G1.
+  apply geo_add_item; [exact G1| | |].
+  - destruct (Z_le_gt_dec (snd x) 0); [left; assumption|right]. exists rg. split; [apply in_elt|assumption].
+  - exact (fresh_disj_items _ _ _ _ _ G Hf Hx).
+  - exact (fresh_disj_win _ _ _ _ _ G Hf Hx).
+Qed.
+
+(* a second item y in a region rg already present, disjoint from a known item x that was just inserted *)
+Lemma geo_add_item_after : forall R I1 I2 I3 w x y rg, GeoL R (I1 ++ I2 ++ x :: I3) w -> In rg R -> inside y rg ->
+  Forall (disj y) (I1 ++ I2 ++ I3) -> disj y x -> disj y w -> GeoL R (I1 ++ y :: I2 ++ x :: I3) w.
+Proof.
+  intros R I1 I2 I3 w x y rg G Hin Hy F Hx Hw.
+  apply geo_add_item; [exact G| | |exact Hw].
+  - destruct (Z_le_gt_dec (snd y) 0); [left; assumption|right]. exists rg. split; assumption.
+  - rewrite app_assoc. apply Forall_insert; [rewrite <- app_assoc; assumption|assumption].
+Qed.
+
+Lemma fresh_cons : forall R r q, fresh R r -> reg_ok r -> disj r q -> fresh (q :: R) r.
+Proof. intros R r q [H1 H2] _ Hd. split; [assumption|constructor; assumption]. Qed.
+(* ---------------------------------------------------------------- the model's geometry *)
+Section Geo.
+Variable P : Z.
+Hypothesis Pok : exists k, 7 <= k <= 32 /\ P = 2 ^ k.
+
+Definition page_iv (p : Z) : iv := (p, P).
+Definition up_iv (e : Z * Z * Z * Z) : iv := match e with (_, p, b, _) => (p, b) end.
+Definition regions (s : st) : list iv := map page_iv (gpages s) ++ map up_iv (gups s).
+Definition items (s : st) : list iv := blocks s ++ books s.
+Definition window (s : st) : iv := (fb s, fe s - fb s).
+
+Record Geo (s : st) : Prop := {
+  geo_l : GeoL (regions s) (items s) (window s);
+  geo_fb : 0 <= fb s <= 2 ^ 63;
+  geo_fe : 0 <= fe s <= 2 ^ 62;
+  geo_k : parrs s = [] -> fb s = 0 /\ fe s = 0 /\ ptop s = 0
+}.
+
+(* the request the resource sends upstream for allocate(b, a) in state s *)
+Definition up_request (s : st) (b a : Z) : Z * Z :=
+  if has_oversize_slot (otop s) then (b, a)
+  else (over_first_request (over_round b (over_align a)), over_align a).
+
+(* what a correct page allocator / upstream answers: fresh, aligned regions (answers the operation does
+   not ask for are ignored by the model, so constraining them loses nothing) *)
+Definition oracle_ok (s : st) (b a : Z) (o : oracle) : Prop :=
+  fresh (regions s) (o1 o, P) /\ o1 o mod P = 0 /\
+  fresh (regions s) (o2 o, P) /\ o2 o mod P = 0 /\ disj (o1 o, P) (o2 o, P) /\
+  fresh (regions s) (ou o, fst (up_request s b a)) /\ ou o mod snd (up_request s b a) = 0.
+
+Lemma P_facts : 128 <= P <= 2 ^ 32 /\ P mod 8 = 0 /\ pow2 P.
+Proof.
+  destruct Pok as (k & Hk & ->). repeat split.
+  - change 128 with (2 ^ 7). apply Z.pow_le_mono_r; lia.
+  - apply Z.pow_le_mono_r; lia.
+  - replace k with (3 + (k - 3)) by lia. rewrite Z.pow_add_r by lia. rewrite Z.mul_comm. apply Z.mod_mul. lia.
+  - exists k. split; [lia|reflexivity].
+Qed.
+
+Lemma pow2_8 : pow2 8.
+Proof. exists 3. split; [lia|reflexivity]. Qed.
+
+Lemma pow2_mod : forall a c, pow2 a -> pow2 c -> a <= c -> c mod a = 0.
+Proof.
+  intros a c (j & Hj & ->) (k & Hk & ->) Hle.
+  assert (j <= k). { apply (Z.pow_le_mono_r_iff 2); lia. }
+  replace k with (j + (k - j)) by lia. rewrite Z.pow_add_r by lia. rewrite Z.mul_comm. apply Z.mod_mul.
+  assert (0 < 2 ^ j) by (apply Z.pow_pos_nonneg; lia). lia.
+Qed.
+
+Lemma mod_mod_0 : forall x a c, 0 < a -> 0 < c -> c mod a = 0 -> x mod c = 0 -> x mod a = 0.
+Proof.
+  intros x a c Ha Hc H1 H2.
+  apply Z.mod_divide in H1; try lia. apply Z.mod_divide in H2; try lia.
+  apply Z.mod_divide; try lia. eapply Z.divide_trans; eauto.
+Qed.
+
+Lemma pow2_max8 : forall a, pow2 a -> pow2 (Z.max a 8) /\ (Z.max a 8) mod a = 0 /\ 8 <= Z.max a 8.
+Proof.
+  intros a Ha. pose proof (pow2_pos a Ha).
+  destruct (Z_le_gt_dec a 8).
+  - rewrite Z.max_r by lia. split; [apply pow2_8|]. split; [apply pow2_mod; auto using pow2_8|lia].
+  - rewrite Z.max_l by lia. split; [assumption|]. split; [apply Z_mod_same_full|lia].
+Qed.
+
+(* ---- do_allocate_in_oversize_page ---- *)
+Lemma oversize_geo : forall s b a o s' r e,
+  Geo s -> 0 <= b < 2 ^ 61 -> pow2 a -> oracle_ok s b a o ->
+  alloc_oversize s b a o = (s', r, e) ->
+  r mod a = 0 /\ blocks s' = blocks s /\
+  GeoL (regions s') ((r, b) :: items s') (window s') /\ fb s' = fb s /\ fe s' = fe s.
+Proof.
+  intros s b a o s' r e G Hb Ha Ho H.
+  destruct G as [GL Hfb Hfe _].
+  destruct Ho as (_ & _ & _ & _ & _ & Hfu & Hmu).
+  unfold alloc_oversize, up_request in *.
+  destruct (has_oversize_slot (otop s)) eqn:Hs; inversion H; subst; clear H; cbn in *.
+  - split; [assumption|]. split; [reflexivity|]. split; [|split; reflexivity].
+    unfold regions, items in *; cbn.
+    apply (geo_fresh_keep (map page_iv (gpages s)) (map up_iv (gups s)) [] (blocks s ++ books s)); auto.
+    unfold inside; cbn; lia.
+  - pose proof (pow2_max8 a Ha) as (Hp8 & Hd8 & Hge8).
+    unfold over_align, over_first_request, over_first_recorded, over_array_at, over_first_accounted in *.
+    rewrite over_round_rup in *.
+    pose proof (rup_bounds b (Z.max a 8) Hp8 ltac:(lia)) as (Hr1 & Hr2).
+    pose proof (pow2_pos a Ha).
+    split. { eapply mod_mod_0; [| |exact Hd8|exact Hmu]; lia. }
+    split; [reflexivity|]. split; [|split; reflexivity].
+    unfold regions, items in *; cbn.
+    set (b' := rup b (Z.max a 8)) in *.
+    set (rg := (ou o, b' + 368)) in *.
+    pose proof (geo_fresh_keep (map page_iv (gpages s)) (map up_iv (gups s)) (blocks s) (books s) _ rg
+                  (ou o + b', SIZEOF_OVERSIZE_ARRAY) GL Hfu) as G1.
+    assert (Hi : inside (ou o + b', SIZEOF_OVERSIZE_ARRAY) rg).
+    { unfold inside, rg, SIZEOF_OVERSIZE_ARRAY; cbn; lia. }
+    specialize (G1 Hi).
+    apply (geo_add_item_after _ [] (blocks s) (books s) _ (ou o + b', SIZEOF_OVERSIZE_ARRAY) (ou o, b) rg); auto.
+    + apply in_elt.
+    + unfold inside, rg; cbn; lia.
+    + cbn. apply (fresh_disj_items _ _ _ rg _ GL Hfu). unfold inside, rg; cbn; lia.
+    + unfold disj, SIZEOF_OVERSIZE_ARRAY; cbn; lia.
+    + apply (fresh_disj_win _ _ _ rg _ GL Hfu). unfold inside, rg; cbn; lia.
+Qed.
+(* ---- do_allocate_with_page_in_new_page_array: the three placements ---- *)
+Lemma new_array_geo : forall s b page o s' r e g0,
+  gpages s = page :: g0 ->
+  GeoL (map page_iv g0 ++ map up_iv (gups s)) (items s) (window s) ->
+  0 <= fb s <= 2 ^ 63 -> 0 <= fe s <= 2 ^ 62 ->
+  fresh (map page_iv g0 ++ map up_iv (gups s)) (page, P) ->
+  fresh (map page_iv g0 ++ map up_iv (gups s)) (o2 o, P) -> disj (page, P) (o2 o, P) ->
+  0 <= b <= P ->
+  alloc_new_array P s b page o = (s', r, e) ->
+  r = page /\ blocks s' = blocks s /\
+  GeoL (regions s') ((page, b) :: items s') (window s') /\ 0 <= fb s' <= 2 ^ 63 /\ 0 <= fe s' <= 2 ^ 62.
+Proof.
+  intros s b page o s' r e g0 Hg GL Hfb Hfe Hf1 Hf2 Hd12 Hb H.
+  pose proof P_facts as (HP & HP8 & HPp).
+  pose proof Hf1 as [Hok1 _]. unfold reg_ok in Hok1; cbn in Hok1.
+  pose proof Hf2 as [Hok2 _]. unfold reg_ok in Hok2; cbn in Hok2.
+  unfold alloc_new_array in H.
+  rewrite align_up_rup in H.
+  pose proof (rup_bounds (fb s) ALIGNOF_PAGE_ARRAY pow2_8 Hfb) as (Hr1 & _).
+  set (fb2 := rup (fb s) ALIGNOF_PAGE_ARRAY) in *.
+  unfold old_tail_fits, new_tail_fits in H.
+  destruct (fb2 + 128 <=? fe s) eqn:C1.
+  - (* the array goes to the tail of the old page *)
+    apply Z.leb_le in C1. injection H as Hs Hr He; subst s' r e.
+    unfold regions, items, window in *; cbn. rewrite Hg; cbn.
+    unfold old_tail_free_begin, slot_free_end, SIZEOF_PAGE_ARRAY.
+    split; [reflexivity|]. split; [reflexivity|]. split; [|lia].
+    assert (G1 : GeoL (map page_iv g0 ++ map up_iv (gups s)) (blocks s ++ (fb2, 128) :: books s) (fe s, 0)).
+    { apply (geo_carve _ _ _ _ _ _ GL); unfold inside, disj; cbn; lia. }
+    apply (geo_fresh_win [] _ [] _ _ (page, P) (page, b) _ G1 Hf1); unfold inside, disj; cbn; lia.
+  - apply Z.leb_gt in C1. destruct (b + 128 <=? P) eqn:C2.
+    + (* the array goes behind the block in the new page *)
+      apply Z.leb_le in C2. injection H as Hs Hr He; subst s' r e.
+      unfold regions, items, window in *; cbn. rewrite Hg; cbn.
+      rewrite new_tail_round_rup.
+      pose proof (rup_bounds b 8 pow2_8 ltac:(lia)) as (Hb1 & _).
+      assert (Hb2 : rup b 8 <= P - 128).
+      { apply rup_le_multiple; [apply pow2_8|lia|lia|].
+        rewrite Zminus_mod, HP8. reflexivity. }
+      set (b' := rup b 8) in *.
+      unfold new_tail_array_at, new_tail_free_begin, slot_free_end, SIZEOF_PAGE_ARRAY.
+      split; [reflexivity|]. split; [reflexivity|]. split; [|lia].
+      assert (G1 : GeoL ((page, P) :: map page_iv g0 ++ map up_iv (gups s)) (blocks s ++ (page + b', 128) :: books s)
+                        (page + b' + 128, page + P - (page + b' + 128))).
+      { apply (geo_fresh_win [] _ _ _ _ (page, P) _ _ GL Hf1); unfold inside, disj; cbn; lia. }
+      apply (geo_add_item_after _ [] (blocks s) (books s) _ (page + b', 128) (page, b) (page, P) G1).
+      * left; reflexivity.
+      * unfold inside; cbn; lia.
+      * cbn. apply (fresh_disj_items _ _ _ (page, P) _ GL Hf1). unfold inside; cbn; lia.
+      * unfold disj; cbn; lia.
+      * unfold disj; cbn; lia.
+    + (* an additional page holds the array *)
+      apply Z.leb_gt in C2. injection H as Hs Hr He; subst s' r e.
+      unfold regions, items, window in *; cbn. rewrite Hg; cbn.
+      unfold extra_free_begin, extra_free_end, SIZEOF_PAGE_ARRAY.
+      split; [reflexivity|]. split; [reflexivity|]. split; [|lia].
+      assert (G1 : GeoL ((page, P) :: map page_iv g0 ++ map up_iv (gups s)) ((page, b) :: blocks s ++ books s) (page + P, 0)).
+      { apply (geo_fresh_win [] _ [] _ _ (page, P) (page, b) _ GL Hf1); unfold inside, disj; cbn; lia. }
+      assert (Hf2' : fresh ((page, P) :: map page_iv g0 ++ map up_iv (gups s)) (o2 o, P)).
+      { apply fresh_cons; [assumption|apply Hf2|apply disj_sym; assumption]. }
+      apply (geo_fresh_win [] _ ((page, b) :: blocks s) (books s) _ (o2 o, P) (o2 o, 128) _ G1 Hf2');
+        unfold inside, disj; cbn; lia.
+Qed.
+(* ---- do_allocate_in_new_page ---- *)
+Lemma new_page_geo : forall s b a o s' r e,
+  Geo s -> 0 <= b < 2 ^ 61 -> pow2 a -> oracle_ok s b a o ->
+  alloc_new_page P s b a o = (s', r, e) ->
+  r mod a = 0 /\ blocks s' = blocks s /\
+  GeoL (regions s') ((r, b) :: items s') (window s') /\ 0 <= fb s' <= 2 ^ 63 /\ 0 <= fe s' <= 2 ^ 62.
+Proof.
+  intros s b a o s' r e G Hb Ha Ho H.
+  pose proof P_facts as (HP & HP8 & HPp). pose proof (pow2_pos a Ha) as Hap.
+  unfold alloc_new_page in H. unfold page_path in H.
+  destruct ((b <=? P) && (a <=? P)) eqn:C.
+  - apply andb_true_iff in C. destruct C as [C1 C2]. apply Z.leb_le in C1. apply Z.leb_le in C2.
+    destruct Ho as (Hf1 & Hm1 & Hf2 & Hm2 & Hd12 & _).
+    destruct G as [GL Hfb Hfe _].
+    pose proof Hf1 as [Hok1 _]. unfold reg_ok in Hok1; cbn in Hok1.
+    assert (Hal : o1 o mod a = 0).
+    { eapply mod_mod_0; [| |apply (pow2_mod a P Ha HPp C2)|exact Hm1]; lia. }
+    cbn in H. unfold has_page_slot in H.
+    destruct (ptop s >? 0) eqn:C3.
+    + injection H as Hs Hr He; subst s' r e.
+      unfold regions, items, window in *; cbn. unfold slot_free_begin, slot_free_end.
+      split; [assumption|]. split; [reflexivity|]. split; [|lia].
+      apply (geo_fresh_win [] _ [] _ _ (o1 o, P) (o1 o, b) _ GL Hf1); unfold inside, disj; cbn; lia.
+    + destruct (alloc_new_array P _ b (o1 o) o) as [[s2 r2] e2] eqn:E.
+      injection H as Hs Hr He; subst s' r e.
+      apply new_array_geo with (g0 := gpages s) in E; cbn; auto.
+      all: try lia.
+      destruct E as (Er & Hbl & GL' & Hn1 & Hn2). subst r2. split; [exact Hal|]. split; [exact Hbl|]. split; [exact GL'|]. split; assumption.
+  - destruct (oversize_geo s b a o s' r e G Hb Ha Ho H) as (H1 & H2 & H3 & H4 & H5).
+    destruct G as [GL Hfb Hfe _]. rewrite H4, H5. split; [exact H1|]. split; [exact H2|]. split; [exact H3|]. split; assumption.
+Qed.
+
+(* ---- allocate(bytes, alignment) ---- *)
+Lemma core_geo : forall s b a o s' r e,
+  Geo s -> 0 <= b < 2 ^ 61 -> pow2 a -> oracle_ok s b a o ->
+  alloc_core P s b a o = (s', r, e) ->
+  r mod a = 0 /\ blocks s' = blocks s /\
+  GeoL (regions s') ((r, b) :: items s') (window s') /\ 0 <= fb s' <= 2 ^ 63 /\ 0 <= fe s' <= 2 ^ 62.
+Proof.
+  intros s b a o s' r e G Hb Ha Ho H.
+  pose proof (pow2_pos a Ha) as Hap.
+  pose proof G as [GL Hfb Hfe HK].
+  unfold alloc_core in H. cbn in H. rewrite align_up_rup in H.
+  pose proof (rup_bounds (fb s) a Ha Hfb) as ((Hr1 & Hr2) & Hr3).
+  assert (Hr4 : rup (fb s) a <= 2 ^ 63).
+  { apply rup_le_multiple; auto; try lia.
+    destruct Ha as (k & Hk & ->).
+    replace 63 with (k + (63 - k)) by lia. rewrite Z.pow_add_r by lia. rewrite Z.mul_comm. apply Z.mod_mul. lia. }
+  set (fb1 := rup (fb s) a) in *.
+  unfold fast_fits, fast_next in H.
+  destruct (fb1 + b <=? fe s) eqn:C.
+  - apply Z.leb_le in C. injection H as Hs Hr He; subst s' r e.
+    unfold regions, items, window in *; cbn.
+    split; [assumption|]. split; [reflexivity|]. split; [|lia].
+    apply (geo_carve _ [] _ _ _ _ GL); unfold inside, disj; cbn; lia.
+  - apply Z.leb_gt in C.
+    apply (new_page_geo (set_acct (set_bump s fb1 (fe s)) (used s + b) (allocd s)) b a o s' r e); [|exact Hb|exact Ha|exact Ho|exact H].
+    constructor; cbn; try lia.
+    + unfold regions, items, window in *; cbn.
+      apply (geo_shrink_window _ _ _ _ GL). unfold inside; cbn; lia.
+    + intros Hp. destruct (HK Hp) as (K1 & K2 & K3). rewrite K1 in *. 
+      assert (fb1 = 0) by (rewrite <- Hr3; symmetry; apply Z.mod_small; lia). lia.
+Qed.
+(* ---- structure facts needed by the geometry: no page array => empty window, no slot ---- *)
+Definition K (s : st) : Prop := parrs s = [] -> fb s = 0 /\ fe s = 0 /\ ptop s = 0.
+
+Lemma oversize_K : forall s b a o s' r e, alloc_oversize s b a o = (s', r, e) ->
+  parrs s' = parrs s /\ ptop s' = ptop s /\ fb s' = fb s /\ fe s' = fe s.
+Proof.
+  intros s b a o s' r e H. unfold alloc_oversize in H.
+  destruct (has_oversize_slot (otop s)); injection H as Hs Hr He; subst s'; cbn; auto.
+Qed.
+
+Lemma new_array_K : forall s b page o s' r e, alloc_new_array P s b page o = (s', r, e) -> parrs s' <> [].
+Proof.
+  intros s b page o s' r e H. unfold alloc_new_array in H.
+  destruct (old_tail_fits _ _); [|destruct (new_tail_fits _ _)]; injection H as Hs Hr He; subst s'; cbn; discriminate.
+Qed.
+
+Lemma new_page_K : forall s b a o s' r e, K s -> alloc_new_page P s b a o = (s', r, e) -> K s'.
+Proof.
+  intros s b a o s' r e HK H. unfold alloc_new_page in H.
+  destruct (page_path b a P).
+  - cbn in H. unfold has_page_slot in H. destruct (ptop s >? 0) eqn:C.
+    + injection H as Hs Hr He; subst s'. intros Hp; cbn in Hp.
+      destruct (parrs s) as [|[a0 sl] rest] eqn:E; [|discriminate].
+      destruct (HK E) as (_ & _ & K3). rewrite K3 in C. discriminate.
+    + destruct (alloc_new_array P _ b (o1 o) o) as [[s2 r2] e2] eqn:E.
+      injection H as Hs Hr He; subst s'. intros Hp. apply new_array_K in E. contradiction.
+  - destruct (oversize_K _ _ _ _ _ _ _ H) as (H1 & H2 & H3 & H4). unfold K. rewrite H1, H2, H3, H4. exact HK.
+Qed.
+
+Lemma core_K : forall s b a o s' r e, K s -> 0 <= b -> pow2 a -> 0 <= fb s <= 2 ^ 63 ->
+  alloc_core P s b a o = (s', r, e) -> K s'.
+Proof.
+  intros s b a o s' r e HK Hb Ha Hfb H. pose proof (pow2_pos a Ha).
+  unfold alloc_core in H. cbn in H. rewrite align_up_rup in H.
+  pose proof (rup_bounds (fb s) a Ha Hfb) as ((Hr1 & Hr2) & Hr3).
+  assert (Z0 : parrs s = [] -> rup (fb s) a = 0 /\ fe s = 0 /\ ptop s = 0).
+  { intros Hp. destruct (HK Hp) as (K1 & K2 & K3). rewrite K1 in *.
+    split; [|auto]. rewrite <- (Z.mod_small (rup 0 a) a) by lia. exact Hr3. }
+  unfold fast_fits, fast_next in H.
+  destruct (rup (fb s) a + b <=? fe s) eqn:C.
+  - apply Z.leb_le in C. injection H as Hs Hr He; subst s'. intros Hp; cbn in *.
+    destruct (Z0 Hp) as (K1 & K2 & K3). lia.
+  - eapply new_page_K; [|exact H]. intros Hp; cbn in *. auto.
+Qed.
+
+(* ---------------------------------------------------------------- one step keeps the geometry *)
+Definition op_ok (s : st) (o : op) : Prop :=
+  match o with
+  | Alloc b a orc => 0 <= b < 2 ^ 61 /\ pow2 a /\ oracle_ok s b a orc
+  | Reg _ _ orc => oracle_ok s SIZEOF_DESTROY_ARRAY ALIGNOF_DESTROY_ARRAY orc
+  | _ => True
+  end.
+
+Lemma geo_init : Geo init.
+Proof.
+  constructor.
+  - constructor; cbn; auto. left; cbn; lia.
+  - cbn; lia.
+  - cbn; lia.
+  - intros _; cbn; auto.
+Qed.
+
+Lemma alloc_geo : forall s b a o s' r e, Geo s -> 0 <= b < 2 ^ 61 -> pow2 a -> oracle_ok s b a o ->
+  do_alloc P s b a o = (s', r, e) ->
+  Geo s' /\ r mod a = 0 /\ blocks s' = (r, b) :: blocks s.
+Proof.
+  intros s b a o s' r e G Hb Ha Ho H. unfold do_alloc in H.
+  destruct (alloc_core P s b a o) as [[s1 r1] e1] eqn:E. injection H as Hs Hr He; subst s' r e.
+  pose proof (core_K _ _ _ _ _ _ _ (geo_k _ G) (proj1 Hb) Ha (geo_fb _ G) E) as HK.
+  destruct (core_geo _ _ _ _ _ _ _ G Hb Ha Ho E) as (H1 & H2 & H3 & H4 & H5).
+  split; [|split; [exact H1|cbn; rewrite H2; reflexivity]].
+  constructor; cbn; auto.
+Qed.
+
+Lemma step_geo : forall s o s' r e, Geo s -> op_ok s o -> step P s o = (s', r, e) -> Geo s'.
+Proof.
+  intros s o s' r e G Hok H. destruct o as [b a orc|ptr fn orc|ptr| | |]; cbn in H.
+  - destruct Hok as (Hb & Ha & Ho). eapply alloc_geo; eauto.
+  - unfold do_reg in H. destruct (has_destroy_slot (dtop s)).
+    + injection H as Hs Hr He; subst s'. destruct G. constructor; cbn; auto.
+    + destruct (alloc_core P s SIZEOF_DESTROY_ARRAY ALIGNOF_DESTROY_ARRAY orc) as [[s1 r1] e1] eqn:E.
+      injection H as Hs Hr He; subst s'.
+      assert (Hb : 0 <= SIZEOF_DESTROY_ARRAY < 2 ^ 61) by (unfold SIZEOF_DESTROY_ARRAY; lia).
+      pose proof (core_K _ _ _ _ _ _ _ (geo_k _ G) (proj1 Hb) pow2_8 (geo_fb _ G) E) as HK.
+      destruct (core_geo _ _ _ _ _ _ _ G Hb pow2_8 Hok E) as (H1 & H2 & H3 & H4 & H5).
+      constructor; cbn; auto.
+      unfold regions, items, window in *; cbn. apply geo_move_item. exact H3.
+  - injection H as Hs Hr He; subst s'. exact G.
+  - unfold do_release in H.
+    assert (Hz : (match parrs s with [] => (fb s, fe s) | _ :: _ => (0, 0) end) = (0, 0)).
+    { destruct (parrs s) eqn:E; [|reflexivity]. destruct (geo_k _ G E) as (-> & -> & _). reflexivity. }
+    rewrite Hz in H. injection H as Hs Hr He; subst s'.
+    constructor.
+    + constructor; cbn; auto. left; cbn; lia.
+    + cbn; lia.
+    + cbn; lia.
+    + intros _; cbn; auto.
+  - injection H as Hs Hr He; subst s'. exact G.
+  - injection H as Hs Hr He; subst s'. destruct G. constructor; cbn; auto.
+Qed.
+
+(* every state reachable from the initial one through operations whose oracle answers are fresh *)
+Inductive reach : st -> Prop :=
+| reach_init : reach init
+| reach_step : forall s o, reach s -> op_ok s o -> reach (fst (fst (step P s o))).
+
+Lemma reach_geo : forall s, reach s -> Geo s.
+Proof.
+  induction 1 as [|s o R IH Hok]; [apply geo_init|].
+  destruct (step P s o) as [[s' r] e] eqn:E. cbn. eapply step_geo; eauto.
+Qed.
+End Geo.
+(* ---------------------------------------------------------------- slot arrays *)
+Section Chains.
+Context {A : Type}.
+Variable d : A.
+
+Lemma lookup_hit : forall i (v : A) l, lookup d i ((i, v) :: l) = v.
+Proof. intros. unfold lookup. cbn. rewrite Z.eqb_refl. reflexivity. Qed.
+Lemma lookup_miss : forall i j (v : A) l, i <> j -> lookup d i ((j, v) :: l) = lookup d i l.
+Proof. intros. unfold lookup. cbn. destruct (Z.eqb_spec j i); [congruence|reflexivity]. Qed.
+
+Definition keys_ok (k cap : nat) (sl : list (Z * A)) : Prop := map fst sl = map Z.of_nat (seq k (cap - k)).
+
+Lemma read_keys : forall n lo (sl : list (Z * A)), map fst sl = map Z.of_nat (seq lo n) ->
+  map (fun i => lookup d (Z.of_nat i) sl) (seq lo n) = map snd sl.
+Proof.
+  induction n as [|n IH]; intros lo sl H; cbn in *.
+  - destruct sl; [reflexivity|discriminate].
+  - destruct sl as [|[k v] sl]; [discriminate|]. cbn in H. injection H as Hk Hr. subst k. cbn.
+    rewrite lookup_hit. f_equal. rewrite <- (IH (S lo) sl Hr).
+    apply map_ext_in. intros i Hi. apply in_seq in Hi. apply lookup_miss. lia.
+Qed.
+
+Lemma read_slots_ok : forall k cap sl, keys_ok k cap sl ->
+  read_slots d (Z.of_nat k) (Z.of_nat cap) sl = map snd sl.
+Proof. intros k cap sl H. unfold read_slots. rewrite !Nat2Z.id. apply read_keys. exact H. Qed.
+
+Fixpoint chain_ok (k cap : nat) (arrs : list (Z * list (Z * A))) : Prop :=
+  match arrs with [] => True | (_, sl) :: r => keys_ok k cap sl /\ chain_ok 0 cap r end.
+
+Definition chain_vals (arrs : list (Z * list (Z * A))) : list A := concat (map (fun a => map snd (snd a)) arrs).
+
+Lemma chain_read_ok : forall arrs k cap, chain_ok k cap arrs ->
+  concat (chain_read d (Z.of_nat k) (Z.of_nat cap) arrs) = chain_vals arrs.
+Proof.
+  induction arrs as [|[a sl] r IH]; intros k cap H; cbn in *; [reflexivity|].
+  destruct H as [H1 H2]. rewrite read_slots_ok by assumption. unfold chain_vals in *. cbn. f_equal.
+  apply (IH 0%nat cap H2).
+Qed.
+
+Definition Chain (top : Z) (arrs : list (Z * list (Z * A))) (vals : list A) (cap : nat) : Prop :=
+  exists k, top = Z.of_nat k /\ (k <= cap)%nat /\ (arrs = [] -> k = 0%nat) /\ chain_ok k cap arrs /\ chain_vals arrs = vals.
+
+Lemma chain_nil : forall cap, Chain 0 [] [] cap.
+Proof. intros cap. exists 0%nat. repeat split; auto; lia. Qed.
+
+Lemma chain_push : forall top arrs vals cap v, Chain top arrs vals cap -> 0 < top ->
+  Chain (top - 1) (push_slot (top - 1) v arrs) (v :: vals) cap /\ arrs <> [].
+Proof.
+  intros top arrs vals cap v (k & -> & Hk & Hn & Hc & Hv) Ht.
+  destruct arrs as [|[a sl] r]; [specialize (Hn eq_refl); lia|]. split; [|discriminate].
+  exists (k - 1)%nat. cbn in *. destruct Hc as [H1 H2].
+  split; [lia|]. split; [lia|]. split; [discriminate|]. split.
+  - split; [|assumption]. unfold keys_ok in *. cbn.
+    replace (cap - (k - 1))%nat with (S (cap - k)) by lia. cbn.
+    replace (Z.of_nat k - 1) with (Z.of_nat (k - 1)) by lia. f_equal.
+    replace (S (k - 1)) with k by lia. exact H1.
+  - unfold chain_vals in *. cbn in *. rewrite Hv. reflexivity.
+Qed.
+
+Lemma chain_new1 : forall top arrs vals cap a v, Chain top arrs vals cap -> top <= 0 -> (1 <= cap)%nat ->
+  Chain (Z.of_nat (cap - 1)) ((a, [(Z.of_nat (cap - 1), v)]) :: arrs) (v :: vals) cap.
+Proof.
+  intros top arrs vals cap a v (k & -> & Hk & Hn & Hc & Hv) Ht Hcap.
+  assert (k = 0%nat) by lia. subst k.
+  exists (cap - 1)%nat. split; [reflexivity|]. split; [lia|]. split; [discriminate|]. split.
+  - cbn. split; [|assumption]. unfold keys_ok. cbn. replace (cap - (cap - 1))%nat with 1%nat by lia. reflexivity.
+  - unfold chain_vals in *. cbn. rewrite Hv. reflexivity.
+Qed.
+
+Lemma chain_new2 : forall top arrs vals cap a v1 v2, Chain top arrs vals cap -> top <= 0 -> (2 <= cap)%nat ->
+  Chain (Z.of_nat (cap - 2)) ((a, [(Z.of_nat (cap - 2), v2); (Z.of_nat (cap - 1), v1)]) :: arrs) (v2 :: v1 :: vals) cap.
+Proof.
+  intros top arrs vals cap a v1 v2 (k & -> & Hk & Hn & Hc & Hv) Ht Hcap.
+  assert (k = 0%nat) by lia. subst k.
+  exists (cap - 2)%nat. split; [reflexivity|]. split; [lia|]. split; [discriminate|]. split.
+  - cbn. split; [|assumption]. unfold keys_ok. cbn. replace (cap - (cap - 2))%nat with 2%nat by lia.
+    change (seq (cap - 2) 2) with [(cap - 2)%nat; S (cap - 2)].
+    replace (S (cap - 2)) with (cap - 1)%nat by lia. reflexivity.
+  - unfold chain_vals in *. cbn. rewrite Hv. reflexivity.
+Qed.
+
+Lemma chain_read_all : forall top arrs vals cap, Chain top arrs vals cap ->
+  concat (chain_read d top (Z.of_nat cap) arrs) = vals.
+Proof. intros top arrs vals cap (k & -> & Hk & Hn & Hc & Hv). rewrite chain_read_ok by assumption. exact Hv. Qed.
+
+Lemma chain_top_range : forall top arrs vals cap, Chain top arrs vals cap -> 0 <= top <= Z.of_nat cap.
+Proof. intros top arrs vals cap (k & -> & Hk & _). lia. Qed.
+End Chains.
+(* ---------------------------------------------------------------- structure invariant *)
+Definition pcap : nat := Z.to_nat PAGE_ARRAY_CAPACITY.
+Definition ocap : nat := Z.to_nat release_oversize_end.
+Definition dcap : nat := Z.to_nat idx_destroy_end.
+Definition up_entry (e : Z * Z * Z * Z) : Z * Z * Z := match e with (_, p, b, a) => (p, b, a) end.
+
+(* the slot indices written by the code are the ones release reads back (closed computations on the
+   regenerated constants: an edited index / capacity makes these fail) *)
+Lemma side_idx :
+  idx_old_tail = Z.of_nat (pcap - 1) /\ idx_new_tail = Z.of_nat (pcap - 1) /\
+  idx_extra_page = Z.of_nat (pcap - 1) /\ idx_extra_ptr = Z.of_nat (pcap - 2) /\ (2 <= pcap)%nat /\
+  idx_over_first = Z.of_nat (ocap - 1) /\ (1 <= ocap)%nat /\
+  idx_destroy_first = Z.of_nat (dcap - 1) /\ (1 <= dcap)%nat.
+Proof. repeat split; try reflexivity; apply Nat.leb_le; reflexivity. Qed.
+
+Lemma side_caps : PAGE_ARRAY_CAPACITY = Z.of_nat pcap /\ release_oversize_end = Z.of_nat ocap /\
+  idx_destroy_end = Z.of_nat dcap.
+Proof. repeat split; reflexivity. Qed.
+
+(* every slot the code can write lies inside its array *)
+Lemma side_sizes : 8 + 8 * Z.of_nat pcap <= SIZEOF_PAGE_ARRAY /\ 8 + 24 * Z.of_nat ocap <= SIZEOF_OVERSIZE_ARRAY /\
+  8 + 16 * Z.of_nat dcap <= SIZEOF_DESTROY_ARRAY.
+Proof. vm_compute. repeat split; discriminate. Qed.
+
+Arguments In : simpl never.
+Arguments idx_old_tail : simpl never.
+Arguments idx_new_tail : simpl never.
+Arguments idx_extra_page : simpl never.
+Arguments idx_extra_ptr : simpl never.
+Arguments idx_over_first : simpl never.
+Arguments idx_destroy_first : simpl never.
+Arguments idx_destroy_end : simpl never.
+Arguments release_oversize_end : simpl never.
+Arguments PAGE_ARRAY_CAPACITY : simpl never.
+Arguments SIZEOF_PAGE_ARRAY : simpl never.
+Arguments SIZEOF_OVERSIZE_ARRAY : simpl never.
+Arguments SIZEOF_DESTROY_ARRAY : simpl never.
+
+Record Str' (s : st) (g : list Z) : Prop := {
+  str_p : Chain (ptop s) (parrs s) g pcap;
+  str_o : Chain (otop s) (oarrs s) (map up_entry (gups s)) ocap;
+  str_d : Chain (dtop s) (darrs s) (gdtors s) dcap;
+  str_bp : Forall (fun a => In (a, SIZEOF_PAGE_ARRAY) (books s)) (map fst (parrs s));
+  str_bo : Forall (fun a => In (a, SIZEOF_OVERSIZE_ARRAY) (books s)) (map fst (oarrs s));
+  str_bd : Forall (fun a => In (a, SIZEOF_DESTROY_ARRAY) (books s)) (map fst (darrs s))
+}.
+Definition Str (s : st) : Prop := Str' s (gpages s).
+
+Lemma Forall_in_cons : forall {B C} (f : B -> C) (x : C) l (bs : list B),
+  Forall (fun a => In (f a) l) bs -> Forall (fun a => In (f a) (x :: l)) bs.
+Proof. intros. eapply Forall_impl; [|eassumption]. intros; right; assumption. Qed.
+
+Lemma map_fst_push : forall {A} i (v : A) arrs, map fst (push_slot i v arrs) = map fst arrs.
+Proof. intros A i v [|[a sl] r]; reflexivity. Qed.
+
+Section StrP.
+Variable P : Z.
+
+Lemma oversize_str : forall s g b a o s' r e, Str' s g -> alloc_oversize s b a o = (s', r, e) ->
+  Str' s' g /\ gpages s' = gpages s.
+Proof.
+  intros s g b a o s' r e [] H. unfold alloc_oversize in H.
+  pose proof side_idx as (_ & _ & _ & _ & _ & So1 & So2 & _).
+  unfold has_oversize_slot in H. destruct (otop s >? 0) eqn:C.
+  - apply Z.gtb_lt in C. injection H as Hs Hr He; subst s'. split; [|reflexivity].
+    destruct (chain_push _ _ _ _ (ou o, b, a) str_o0 C) as [Hc Hne].
+    constructor; cbn; auto. rewrite map_fst_push. assumption.
+  - injection H as Hs Hr He; subst s'. split; [|reflexivity].
+    assert (Ht : otop s <= 0) by (destruct (Z.gtb_spec (otop s) 0); [discriminate|lia]).
+    constructor; cbn; auto using Forall_in_cons.
+    + rewrite So1. eapply chain_new1; eauto.
+    + constructor; [left; reflexivity|auto using Forall_in_cons].
+Qed.
+
+Lemma new_array_str : forall s g0 b page o s' r e, Str' s g0 -> gpages s = page :: g0 -> ptop s <= 0 ->
+  alloc_new_array P s b page o = (s', r, e) -> Str s'.
+Proof.
+  intros s g0 b page o s' r e [] Hg Ht H. unfold alloc_new_array in H.
+  pose proof side_idx as (S1 & S2 & S3 & S4 & S5 & _).
+  destruct (old_tail_fits _ _); [|destruct (new_tail_fits _ _)]; injection H as Hs Hr He; subst s';
+    (constructor; cbn; auto using Forall_in_cons;
+     [rewrite Hg | constructor; [left; reflexivity|auto using Forall_in_cons]]).
+  - rewrite S1. eapply chain_new1; eauto; lia.
+  - rewrite S2. eapply chain_new1; eauto; lia.
+  - rewrite S3, S4. eapply chain_new2; eauto.
+Qed.
+
+Lemma new_page_str : forall s b a o s' r e, Str s -> alloc_new_page P s b a o = (s', r, e) -> Str s'.
+Proof.
+  intros s b a o s' r e HS H. unfold alloc_new_page in H.
+  destruct (page_path b a P).
+  - cbn in H. unfold has_page_slot in H. destruct (ptop s >? 0) eqn:C.
+    + apply Z.gtb_lt in C. injection H as Hs Hr He; subst s'. destruct HS.
+      destruct (chain_push _ _ _ _ (o1 o) str_p0 C) as [Hc Hne].
+      constructor; cbn; auto. rewrite map_fst_push. assumption.
+    + destruct (alloc_new_array P _ b (o1 o) o) as [[s2 r2] e2] eqn:E.
+      injection H as Hs Hr He; subst s'.
+      assert (Ht : ptop s <= 0) by (destruct (Z.gtb_spec (ptop s) 0); [discriminate|lia]).
+      eapply new_array_str; [| | |exact E]; cbn; [|reflexivity|assumption].
+      destruct HS. constructor; cbn; auto.
+  - destruct (oversize_str _ _ _ _ _ _ _ _ HS H) as [H1 H2]. unfold Str. rewrite H2. exact H1.
+Qed.
+
+Lemma core_str : forall s b a o s' r e, Str s -> alloc_core P s b a o = (s', r, e) -> Str s'.
+Proof.
+  intros s b a o s' r e HS H. unfold alloc_core in H. cbn in H.
+  destruct (fast_fits _ _).
+  - injection H as Hs Hr He; subst s'. destruct HS. constructor; cbn; auto.
+  - eapply new_page_str; [|exact H]. destruct HS. constructor; cbn; auto.
+Qed.
+
+Lemma core_frame_d : forall s b a o s' r e, alloc_core P s b a o = (s', r, e) ->
+  dtop s' = dtop s /\ darrs s' = darrs s /\ gdtors s' = gdtors s.
+Proof.
+  intros s b a o s' r e H.
+  unfold alloc_core, alloc_new_page, alloc_new_array, alloc_oversize in H. cbn in H.
+  repeat match type of H with context [if ?c then _ else _] => destruct c end;
+    injection H as Hs Hr He; subst s'; cbn; auto.
+Qed.
+
+Lemma str_init : Str init.
+Proof. constructor; cbn; auto; apply chain_nil. Qed.
+
+Lemma step_str : forall s o s' r e, Str s -> step P s o = (s', r, e) -> Str s'.
+Proof.
+  intros s o s' r e HS H. destruct o as [b a orc|ptr fn orc|ptr| | |]; cbn in H.
+  - unfold do_alloc in H. destruct (alloc_core P s b a orc) as [[s1 r1] e1] eqn:E.
+    injection H as Hs Hr He; subst s'. apply core_str in E; [|assumption]. destruct E. constructor; cbn; auto.
+  - unfold do_reg in H. pose proof side_idx as (_ & _ & _ & _ & _ & _ & _ & Sd1 & Sd2).
+    unfold has_destroy_slot in H. destruct (dtop s =? 0) eqn:C; cbn in H.
+    + apply Z.eqb_eq in C.
+      destruct (alloc_core P s SIZEOF_DESTROY_ARRAY ALIGNOF_DESTROY_ARRAY orc) as [[s1 r1] e1] eqn:E.
+      injection H as Hs Hr He; subst s'.
+      destruct (core_frame_d _ _ _ _ _ _ _ E) as (D1 & D2 & D3).
+      apply core_str in E; [|assumption].
+      destruct E. constructor; cbn; auto using Forall_in_cons.
+      * rewrite Sd1. eapply chain_new1; eauto. rewrite D1, C. lia.
+      * constructor; [left; reflexivity|auto using Forall_in_cons].
+    + apply Z.eqb_neq in C. injection H as Hs Hr He; subst s'. destruct HS.
+      pose proof (chain_top_range _ _ _ _ str_d0).
+      destruct (chain_push _ _ _ _ (ptr, fn) str_d0 ltac:(lia)) as [Hc Hne].
+      constructor; cbn; auto. rewrite map_fst_push. assumption.
+  - injection H as Hs Hr He; subst s'. exact HS.
+  - unfold do_release in H. destruct (match parrs s with [] => _ | _ => _ end) as [b0 e0].
+    injection H as Hs Hr He; subst s'. constructor; cbn; auto; apply chain_nil.
+  - injection H as Hs Hr He; subst s'. exact HS.
+  - injection H as Hs Hr He; subst s'. destruct HS. constructor; cbn; auto.
+Qed.
+End StrP.
+(* ---------------------------------------------------------------- main theorems *)
+Section Main.
+Variable P : Z.
+Hypothesis Pok : exists k, 7 <= k <= 32 /\ P = 2 ^ k.
+
+Lemma reach_str : forall s, reach P s -> Str s.
+Proof.
+  induction 1 as [|s o R IH Hok]; [apply str_init|].
+  destruct (step P s o) as [[s' r] e] eqn:E. cbn. eapply step_str; eauto.
+Qed.
+
+Lemma PW_app_disj : forall l1 l2 x y, PW (l1 ++ l2) -> In x l1 -> In y l2 -> disj x y.
+Proof.
+  induction l1 as [|z l1 IH]; cbn; intros l2 x y H Hx Hy; [contradiction|].
+  destruct H as [H1 H2]. destruct Hx as [->|Hx].
+  - rewrite Forall_forall in H1. apply H1. apply in_or_app. right. assumption.
+  - eapply IH; eauto.
+Qed.
+
+(* C06, first sentence: the block returned by allocate *)
+Theorem mr_block_ok : forall s b a o s' r e,
+  reach P s -> 0 <= b < 2 ^ 61 -> pow2 a -> oracle_ok P s b a o ->
+  step P s (Alloc b a o) = (s', r, e) ->
+  r mod a = 0 /\ owned (regions P s') (r, b) /\
+  Forall (disj (r, b)) (blocks s) /\ Forall (disj (r, b)) (books s') /\
+  blocks s' = (r, b) :: blocks s.
+Proof.
+  intros s b a o s' r e R Hb Ha Ho H. cbn in H.
+  destruct (alloc_geo P Pok _ _ _ _ _ _ _ (reach_geo P Pok _ R) Hb Ha Ho H) as (G & Hal & Hbl).
+  destruct G as [GL _ _ _]. destruct GL as [_ _ Hpw Hin _ _]. unfold items in *. rewrite Hbl in *.
+  cbn in Hpw, Hin. destruct Hpw as [Hd _]. apply Forall_app in Hd. destruct Hd as [Hd1 Hd2].
+  inversion Hin; subst. repeat split; assumption.
+Qed.
+
+(* ... and at every reachable state all live blocks and all bookkeeping arrays are pairwise disjoint and
+   lie in pages / oversize blocks obtained and not yet returned *)
+Theorem mr_live_disjoint : forall s, reach P s ->
+  PW (blocks s ++ books s) /\ Forall (owned (regions P s)) (blocks s ++ books s) /\
+  PW (regions P s) /\ (forall x y, In x (blocks s) -> In y (books s) -> disj x y).
+Proof.
+  intros s R. destruct (reach_geo P Pok _ R) as [GL _ _ _]. destruct GL as [H1 _ H2 H3 _ _].
+  unfold items in *. repeat split; auto. intros x y Hx Hy. eapply PW_app_disj; eauto.
+Qed.
+
+(* ---- the ghost lists are exactly the allocator / upstream / registration events of the trace ---- *)
+Definition ev_pages (e : list ev) : list Z := flat_map (fun x => match x with EPageAlloc p => [p] | _ => [] end) e.
+Definition ev_ups (e : list ev) : list (Z * Z * Z * Z) :=
+  flat_map (fun x => match x with EUpAlloc u p b a => [(u, p, b, a)] | _ => [] end) e.
+
+Lemma core_ghost : forall s b a o s' r e, alloc_core P s b a o = (s', r, e) ->
+  gpages s' = rev (ev_pages e) ++ gpages s /\ gups s' = rev (ev_ups e) ++ gups s /\ up s' = up s /\
+  (forall u p b0 a0, In (u, p, b0, a0) (ev_ups e) -> u = up s).
+Proof.
+  intros s b a o s' r e H.
+  unfold alloc_core, alloc_new_page, alloc_new_array, alloc_oversize in H. cbn in H.
+  repeat match type of H with context [if ?c then _ else _] => destruct c end;
+    injection H as Hs Hr He; subst s' e; cbn; repeat split; auto;
+    intros u p b0 a0 Hin; cbn in Hin; unfold In in Hin; intuition congruence.
+Qed.
+
+Theorem mr_ghost_is_trace : forall s o s' r e, step P s o = (s', r, e) -> o <> Release ->
+  gpages s' = rev (ev_pages e) ++ gpages s /\ gups s' = rev (ev_ups e) ++ gups s /\
+  gdtors s' = match o with Reg ptr fn _ => (ptr, fn) :: gdtors s | _ => gdtors s end.
+Proof.
+  intros s o s' r e H Hn. destruct o as [b a orc|ptr fn orc|ptr| | |]; cbn in H; try congruence.
+  - unfold do_alloc in H. destruct (alloc_core P s b a orc) as [[s1 r1] e1] eqn:E.
+    injection H as Hs Hr He; subst s' e. destruct (core_ghost _ _ _ _ _ _ _ E) as (H1 & H2 & _).
+    destruct (core_frame_d _ _ _ _ _ _ _ _ E) as (_ & _ & D3). cbn. auto.
+  - unfold do_reg in H. destruct (has_destroy_slot (dtop s)).
+    + injection H as Hs Hr He; subst s' e. cbn. auto.
+    + destruct (alloc_core P s _ _ orc) as [[s1 r1] e1] eqn:E.
+      injection H as Hs Hr He; subst s' e. destruct (core_ghost _ _ _ _ _ _ _ E) as (H1 & H2 & _).
+      destruct (core_frame_d _ _ _ _ _ _ _ _ E) as (_ & _ & D3). cbn.
+      unfold ev_pages, ev_ups in *. rewrite !flat_map_app. cbn. rewrite !app_nil_r, D3. auto.
+  - injection H as Hs Hr He; subst s' e. cbn. auto.
+  - injection H as Hs Hr He; subst s' e. cbn. auto.
+  - injection H as Hs Hr He; subst s' e. cbn. auto.
+Qed.
+
+(* ---- release ---- *)
+Definition reset (s : st) : st :=
+  {| fb := 0; fe := 0; used := 0; allocd := 0; ptop := 0; parrs := []; otop := 0; oarrs := [];
+     dtop := 0; darrs := []; up := up s; blocks := []; books := []; gpages := []; gups := []; gdtors := [] |}.
+
+Theorem mr_release_exact : forall s, reach P s ->
+  exists batches,
+    step P s Release =
+      (reset s, 0,
+       map (fun t => EDtor (fst t) (snd t)) (gdtors s) ++ map EPageFree batches ++
+       map (fun e => match e with (p, b, a) => EUpFree (up s) p b a end) (map up_entry (gups s))) /\
+    concat batches = gpages s.
+Proof.
+  intros s R. pose proof (reach_str _ R) as [Hp Ho Hd _ _ _]. pose proof (reach_geo P Pok _ R) as [_ _ _ HK].
+  pose proof side_caps as (C1 & C2 & C3).
+  exists (page_batches s). split.
+  - cbn. unfold do_release.
+    assert (Hz : (match parrs s with [] => (fb s, fe s) | _ :: _ => (0, 0) end) = (0, 0)).
+    { destruct (parrs s) eqn:E; [|reflexivity]. destruct (HK eq_refl) as (-> & -> & _). reflexivity. }
+    rewrite Hz. unfold reset. f_equal. f_equal; [f_equal|].
+    + unfold dtor_events. rewrite C3. rewrite (chain_read_all _ _ _ _ _ Hd). reflexivity.
+    + unfold upfree_events. rewrite C2. rewrite (chain_read_all _ _ _ _ _ Ho). reflexivity.
+  - unfold page_batches. destruct Hp as (k & Hk & Hle & Hn & Hc & Hv).
+    destruct (parrs s) as [|[a0 sl] rest] eqn:E.
+    + cbn in Hv. cbn. auto.
+    + cbn in Hc. destruct Hc as [Hc1 Hc2]. unfold release_batch_size. rewrite C1. rewrite Hk.
+      replace (Z.of_nat k + (0 + Z.of_nat pcap - Z.of_nat k)) with (Z.of_nat pcap) by lia.
+      replace (0 + Z.of_nat pcap - 0) with (Z.of_nat pcap) by lia.
+      cbn [concat]. rewrite (read_slots_ok wild _ _ _ Hc1).
+      change 0 with (Z.of_nat 0). rewrite (chain_read_ok wild _ _ _ Hc2).
+      rewrite <- Hv. unfold chain_vals. cbn. reflexivity.
+Qed.
+
+(* every oversize block is returned to the upstream it was obtained from: histories without move construction *)
+Inductive reach_nm : st -> Prop :=
+| rnm_init : reach_nm init
+| rnm_step : forall s o, reach_nm s -> op_ok P s o -> o <> MoveCtor -> reach_nm (fst (fst (step P s o))).
+
+Lemma reach_nm_reach : forall s, reach_nm s -> reach P s.
+Proof. induction 1; [constructor|constructor; assumption]. Qed.
+
+Lemma reach_nm_tag : forall s, reach_nm s -> up s = 1 /\ Forall (fun e => fst (fst (fst e)) = 1) (gups s).
+Proof.
+  induction 1 as [|s o R [IH1 IH2] Hok Hn]; [cbn; auto|].
+  destruct (step P s o) as [[s' r] e] eqn:E. cbn.
+  destruct o as [b a orc|ptr fn orc|ptr| | |]; cbn in E; try congruence.
+  - unfold do_alloc in E. destruct (alloc_core P s b a orc) as [[s1 r1] e1] eqn:E1.
+    injection E as Hs Hr He; subst s'. destruct (core_ghost _ _ _ _ _ _ _ E1) as (_ & H2 & H3 & H4). cbn.
+    rewrite H3, H2. split; [assumption|]. apply Forall_app. split; [|assumption].
+    apply Forall_forall. intros [[[u p] b0] a0] Hin. apply in_rev in Hin. cbn. rewrite (H4 _ _ _ _ Hin). assumption.
+  - unfold do_reg in E. destruct (has_destroy_slot (dtop s)).
+    + injection E as Hs Hr He; subst s'. cbn. auto.
+    + destruct (alloc_core P s _ _ orc) as [[s1 r1] e1] eqn:E1.
+      injection E as Hs Hr He; subst s'. destruct (core_ghost _ _ _ _ _ _ _ E1) as (_ & H2 & H3 & H4). cbn.
+      rewrite H3, H2. split; [assumption|]. apply Forall_app. split; [|assumption].
+      apply Forall_forall. intros [[[u p] b0] a0] Hin. apply in_rev in Hin. cbn. rewrite (H4 _ _ _ _ Hin). assumption.
+  - injection E as Hs Hr He; subst s'. auto.
+  - unfold do_release in E. destruct (match parrs s with [] => _ | _ => _ end).
+    injection E as Hs Hr He; subst s'. cbn. auto.
+  - injection E as Hs Hr He; subst s'. auto.
+Qed.
+
+Theorem mr_release_right_upstream : forall s, reach_nm s ->
+  Forall (fun e => fst (fst (fst e)) = up s) (gups s).
+Proof.
+  intros s R. destruct (reach_nm_tag _ R) as [H1 H2]. rewrite H1. exact H2.
+Qed.
+End Main.
+
+(* ---------------------------------------------------------------- stores of the resource *)
+Definition write_ok (bks : list iv) (x : ev) : Prop :=
+  match x with EWrite a l => 0 < l /\ exists bk, In bk bks /\ inside (a, l) bk | _ => True end.
+
+Lemma write_ok_mono : forall bks bk e, Forall (write_ok bks) e -> Forall (write_ok (bk :: bks)) e.
+Proof.
+  intros bks bk e H. eapply Forall_impl; [|exact H]. intros [] Hx; cbn in *; auto.
+  destruct Hx as (Hl & q & Hq & Hi). split; [assumption|]. exists q. split; [right; assumption|assumption].
+Qed.
+
+Lemma head_in_books : forall {A} (arrs : list (Z * A)) (sz : Z) (bks : list iv),
+  Forall (fun a => In (a, sz) bks) (map fst arrs) -> arrs <> [] -> In (head_addr arrs, sz) bks.
+Proof. intros A [|[a x] r] sz bks H Hn; [congruence|]. cbn in *. inversion H; assumption. Qed.
+
+Section Writes.
+Variable P : Z.
+
+Lemma oversize_writes : forall s g b a o s' r e, Str' s g -> alloc_oversize s b a o = (s', r, e) ->
+  Forall (write_ok (books s')) e.
+Proof.
+  intros s g b a o s' r e HS H. pose proof HS as [_ Ho _ _ Hbo _].
+  pose proof side_idx as (_ & _ & _ & _ & _ & So1 & So2 & _). pose proof side_sizes as (_ & Sz & _).
+  unfold alloc_oversize in H. unfold has_oversize_slot in H. destruct (otop s >? 0) eqn:C.
+  - apply Z.gtb_lt in C. injection H as Hs Hr He; subst s' e. cbn.
+    destruct (chain_push _ _ _ _ (ou o, b, a) Ho C) as [_ Hne].
+    pose proof (chain_top_range _ _ _ _ Ho).
+    constructor; [exact I|]. constructor; [|constructor]. cbn. split; [lia|].
+    exists (head_addr (oarrs s), SIZEOF_OVERSIZE_ARRAY). split; [apply head_in_books; assumption|].
+    unfold inside, oslot; cbn [fst snd]. lia.
+  - injection H as Hs Hr He; subst s' e. cbn.
+    repeat first [apply Forall_nil | apply Forall_cons]; cbn; try exact I; (split; [lia|]);
+      eexists; (split; [left; reflexivity|]); unfold inside, oslot; cbn [fst snd]; rewrite ?So1; lia.
+Qed.
+
+Lemma new_array_writes : forall s b page o s' r e, alloc_new_array P s b page o = (s', r, e) ->
+  Forall (write_ok (books s')) e.
+Proof.
+  intros s b page o s' r e H. unfold alloc_new_array in H.
+  pose proof side_idx as (S1 & S2 & S3 & S4 & S5 & _). pose proof side_sizes as (Sz & _).
+  destruct (old_tail_fits _ _); [|destruct (new_tail_fits _ _)]; injection H as Hs Hr He; subst s' e; cbn;
+    repeat first [apply Forall_nil | apply Forall_cons]; cbn; try exact I; (split; [lia|]);
+    eexists; (split; [left; reflexivity|]); unfold inside, pslot; cbn [fst snd]; rewrite ?S1, ?S2, ?S3, ?S4; lia.
+Qed.
+
+Lemma new_page_writes : forall s b a o s' r e, Str s -> alloc_new_page P s b a o = (s', r, e) ->
+  Forall (write_ok (books s')) e.
+Proof.
+  intros s b a o s' r e HS H. unfold alloc_new_page in H.
+  destruct (page_path b a P).
+  - cbn in H. unfold has_page_slot in H. destruct (ptop s >? 0) eqn:C.
+    + apply Z.gtb_lt in C. injection H as Hs Hr He; subst s' e. destruct HS as [Hp _ _ Hbp _ _].
+      destruct (chain_push _ _ _ _ (o1 o) Hp C) as [_ Hne]. pose proof (chain_top_range _ _ _ _ Hp).
+      pose proof side_sizes as (Sz & _). cbn.
+      constructor; [exact I|]. constructor; [|constructor]. cbn. split; [lia|].
+      exists (head_addr (parrs s), SIZEOF_PAGE_ARRAY). split; [apply head_in_books; assumption|].
+      unfold inside, pslot; cbn [fst snd]. lia.
+    + destruct (alloc_new_array P _ b (o1 o) o) as [[s2 r2] e2] eqn:E.
+      injection H as Hs Hr He; subst s' e. constructor; [exact I|]. eapply new_array_writes; eauto.
+  - eapply oversize_writes; eauto.
+Qed.
+
+Lemma core_writes : forall s b a o s' r e, Str s -> alloc_core P s b a o = (s', r, e) ->
+  Forall (write_ok (books s')) e.
+Proof.
+  intros s b a o s' r e HS H. unfold alloc_core in H. cbn in H.
+  destruct (fast_fits _ _).
+  - injection H as Hs Hr He; subst s' e. constructor.
+  - eapply new_page_writes; [|exact H]. destruct HS. constructor; cbn; auto.
+Qed.
+
+Lemma step_writes : forall s o s' r e, Str s -> step P s o = (s', r, e) -> Forall (write_ok (books s')) e.
+Proof.
+  intros s o s' r e HS H. destruct o as [b a orc|ptr fn orc|ptr| | |]; cbn in H.
+  - unfold do_alloc in H. destruct (alloc_core P s b a orc) as [[s1 r1] e1] eqn:E.
+    injection H as Hs Hr He; subst s' e. cbn. eapply core_writes; eauto.
+  - unfold do_reg in H. pose proof side_idx as (_ & _ & _ & _ & _ & _ & _ & Sd1 & Sd2).
+    pose proof side_sizes as (_ & _ & Sz).
+    unfold has_destroy_slot in H. destruct (dtop s =? 0) eqn:C; cbn in H.
+    + destruct (alloc_core P s SIZEOF_DESTROY_ARRAY ALIGNOF_DESTROY_ARRAY orc) as [[s1 r1] e1] eqn:E.
+      injection H as Hs Hr He; subst s' e. cbn. apply Forall_app. split.
+      * apply write_ok_mono. eapply core_writes; eauto.
+      * repeat first [apply Forall_nil | apply Forall_cons]; cbn; try exact I; (split; [lia|]);
+          eexists; (split; [left; reflexivity|]); unfold inside, dslot; cbn [fst snd]; rewrite ?Sd1; lia.
+    + apply Z.eqb_neq in C. injection H as Hs Hr He; subst s' e. destruct HS as [_ _ Hd _ _ Hbd].
+      pose proof (chain_top_range _ _ _ _ Hd).
+      destruct (chain_push _ _ _ _ (ptr, fn) Hd ltac:(lia)) as [_ Hne]. cbn.
+      constructor; [|constructor]. cbn. split; [lia|].
+      exists (head_addr (darrs s), SIZEOF_DESTROY_ARRAY). split; [apply head_in_books; assumption|].
+      unfold inside, dslot; cbn [fst snd]. lia.
+  - injection H as Hs Hr He; subst s' e. constructor.
+  - unfold do_release in H. destruct (match parrs s with [] => _ | _ => _ end).
+    injection H as Hs Hr He; subst s' e. cbn.
+    apply Forall_app. split; [|apply Forall_app; split]; apply Forall_forall; intros x Hx; apply in_map_iff in Hx;
+      destruct Hx as (y & <- & _); try exact I. destruct y as [[? ?] ?]. exact I.
+  - injection H as Hs Hr He; subst s' e. constructor.
+  - injection H as Hs Hr He; subst s' e. constructor.
+Qed.
+End Writes.
+
+(* no store of the resource lands in a live block *)
+Theorem mr_contents_stable : forall P, (exists k, 7 <= k <= 32 /\ P = 2 ^ k) ->
+  forall s o s' r e addr len, reach P s -> op_ok P s o -> step P s o = (s', r, e) ->
+  In (EWrite addr len) e -> Forall (disj (addr, len)) (blocks s').
+Proof.
+  intros P Pok s o s' r e addr len R Hok H Hin.
+  pose proof (step_writes P _ _ _ _ _ (reach_str P _ R) H) as W.
+  rewrite Forall_forall in W. specialize (W _ Hin). cbn in W. destruct W as (Hl & bk & Hbk & Hi).
+  assert (R' : reach P s') by (replace s' with (fst (fst (step P s o))) by (rewrite H; reflexivity); constructor; assumption).
+  destruct (mr_live_disjoint P Pok _ R') as (_ & _ & _ & Hd).
+  apply Forall_forall. intros x Hx. apply disj_sym. eapply disj_inside_l; [exact Hi|]. apply Hd; assumption.
+Qed.
+
+(* ---------------------------------------------------------------- move construction loses the upstream *)
+Fixpoint ops_ok (P : Z) (s : st) (ops : list op) : Prop :=
+  match ops with [] => True | o :: r => op_ok P s o /\ ops_ok P (fst (fst (step P s o))) r end.
+
+Lemma ops_ok_reach : forall P ops s, reach P s -> ops_ok P s ops -> reach P (fst (run P s ops)).
+Proof.
+  induction ops as [|o r IH]; intros s R H; cbn in *; [assumption|].
+  destruct H as [H1 H2]. pose proof (reach_step P s o R H1) as R'.
+  destruct (step P s o) as [[s1 res] e] eqn:E. cbn in *. specialize (IH s1 R' H2).
+  destruct (run P s1 r) as [s2 outs]. exact IH.
+Qed.
+
+Definition trace (P : Z) (ops : list op) : list ev := concat (map snd (snd (run P init ops))).
+
+Definition witness_oracle : oracle := {| o1 := 4096; o2 := 8192; ou := 16384 |}.
+Definition witness_ops : list op := [Alloc 129 8 witness_oracle; MoveCtor; Release].
+
+Lemma witness_oracle_ok : forall b a, pow2 a -> a <= 16384 -> 0 <= b < 2 ^ 40 -> oracle_ok 128 init b a witness_oracle.
+Proof.
+  intros b a Ha Hle Hb. pose proof (pow2_pos a Ha).
+  assert (F : forall r, reg_ok r -> fresh (regions 128 init) r) by (intros; split; [assumption|constructor]).
+  assert (Hm : 16384 mod Z.max a 8 = 0).
+  { destruct (pow2_max8 a Ha) as ((k & Hk & Hk') & _ & _). rewrite Hk'.
+    assert (Z.max a 8 <= 16384) by lia. rewrite Hk' in H0.
+    assert (k <= 14). { apply (Z.pow_le_mono_r_iff 2); try lia. }
+    change 16384 with (2 ^ 14). replace 14 with (k + (14 - k)) by lia. rewrite Z.pow_add_r by lia.
+    rewrite Z.mul_comm. apply Z.mod_mul. assert (0 < 2 ^ k) by (apply Z.pow_pos_nonneg; lia). lia. }
+  assert (Hu : up_request init b a = (over_first_request (over_round b (over_align a)), over_align a)) by reflexivity.
+  unfold oracle_ok. rewrite Hu. cbn [o1 o2 ou witness_oracle fst snd].
+  split; [apply F; unfold reg_ok; cbn; lia|]. split; [reflexivity|].
+  split; [apply F; unfold reg_ok; cbn; lia|]. split; [reflexivity|].
+  split; [unfold disj; cbn; lia|]. split; [|exact Hm].
+  apply F. unfold reg_ok, over_first_request; cbn [fst snd]. rewrite over_round_rup.
+  destruct (pow2_max8 a Ha) as (Hp & _ & _). pose proof (pow2_pos _ Hp).
+  pose proof (rup_bounds b (over_align a) Hp ltac:(lia)). unfold over_align in *. lia.
+Qed.
+
+Theorem mr_move_ctor_refuted :
+  ops_ok 128 init witness_ops /\
+  exists p b a, In (EUpAlloc 1 p b a) (trace 128 witness_ops) /\ In (EUpFree 0 p b a) (trace 128 witness_ops).
+Proof.
+  split.
+  - cbn. split; [|auto]. split; [lia|]. split; [apply pow2_8|].
+    apply witness_oracle_ok; [apply pow2_8|lia|lia].
+  - exists 16384, 504, 8. vm_compute. tauto.
+Qed.
+
+(* after release the resource is in its initial state again (accounting zero, nothing held): every theorem
+   above applies to the following operations *)
+Theorem mr_release_init : forall P, (exists k, 7 <= k <= 32 /\ P = 2 ^ k) ->
+  forall s, reach_nm P s -> fst (fst (step P s Release)) = init.
+Proof.
+  intros P Pok s R. destruct (mr_release_exact P Pok s (reach_nm_reach P s R)) as (bt & H1 & _).
+  rewrite H1. cbn. unfold reset. destruct (reach_nm_tag P s R) as [-> _]. reflexivity.
+Qed.
+
+Lemma witness_reach : exists s, reach 128 s /\ length (blocks s) = 1%nat /\ length (gups s) = 1%nat.
+Proof.
+  exists (fst (run 128 init [Alloc 129 8 witness_oracle])). split.
+  - apply ops_ok_reach; [constructor|]. cbn. split; [|exact I]. split; [lia|]. split; [apply pow2_8|].
+    apply witness_oracle_ok; [apply pow2_8|lia|lia].
+  - vm_compute. auto.
+Qed.
